@@ -70,6 +70,9 @@ def gen_tests(tier):
         if tier != "quick":
             for f, cfg in (("dsfail", CONFIGS_FULL[1]), ("panic11", CONFIGS_FULL[10])):
                 out.append((cfg, {"sig": sig2, "shape": "nested", "guards": [g1, g2], "fails": [f]}))
+    for g1, g2 in testgen.EXP_PAIRS:
+        for cfg in (CONFIG_DEFAULT, CONFIG_Z3):
+            out.append((cfg, {"sig": sig2, "shape": "nested", "guards": [g1, g2], "fails": ["panic1"]}))
     for g1, g2 in testgen.DIV0_PAIRS:
         for cfg in (CONFIG_DEFAULT, CONFIG_Z3):
             out.append((cfg, {"sig": sig2, "shape": "nested", "guards": [g1, g2], "fails": ["panic1"]}))
